@@ -43,8 +43,10 @@ def main():
         print("patch does not apply to HEAD %s: %s" % (head[:8], out))
         return 1
     et = meta.get("equiv_test", {})
-    place = et.get("place_in", "").replace(wt, "").strip("/")
+    import re
+    place = (et.get("place_in", "").replace(wt, "").split() or [""])[0].strip("/")
     run = et.get("run", "").replace("/tmp/seed/%s/repo" % pid, wt)
+    run = re.sub(r"cp \S+ \S+ && ", "", run)      # the tool places the test file itself
     tests = [f for f in os.listdir(src) if f.endswith("_test.go")]
     def place_t():
         for f in tests:
